@@ -54,12 +54,12 @@ def run_check(tier, seed):
     except rust_abi.TranslateError as ex:
         broken.append({'kind': 'translator', 'item': 'c12 source constants', 'error': str(ex)}); bufsize = SESSION_BUFSIZE
     audit = std_audit(ev, PROP, broken)
-    ok, out, bindir = cargo_build(['codec'])
+    ok, out, bindir = cargo_build(['codec', 'inittoggle'])
     if not ok:
         broken.append({'kind': 'harness-build', 'log': out[-3000:]})
         return finish(ev, PROP, findings, broken)
     rng = random.Random(seed)
-    n = 500 if tier == 'quick' else 6000
+    n = 300 if tier == 'quick' else 6000
     cases = gen_init_cases(rng, n)
     rc, obs, raw = S.run_impl(cases, bindir=bindir)
     if rc != 0 or len(obs) != len(cases): broken.append({'kind': 'harness-run', 'log': raw[-1500:]})
